@@ -24,6 +24,8 @@ from harness.gen import unitext
 from harness.impl import bencode_strict as bstrict
 from harness.impl import pyval
 from harness.impl import depthprobe
+from harness.impl import tzenv
+from harness.impl import mdedit
 
 RULE = ('documents = bencoded metainfo from a grammar (single/multi-file, extra keys at top level, in info and '
         'in file entries, nesting <= 6, empty containers, integers up to 10^4299, valid/invalid UTF-8 byte '
@@ -38,7 +40,17 @@ RULE = ('documents = bencoded metainfo from a grammar (single/multi-file, extra 
         'a ladder of depths below it; non-trivial = satisfies the hypothesis of C05_dump_read (canonical, validate '
         'accepts, UTF-8 keys, private in {0,1}, creation date representable) and has at least one of: non-UTF-8 byte '
         'string, multi-byte key, integer >= 2^64, nesting >= 4, empty container, a wide-text label, or (depth probe) '
-        'accepted by the reader at depth >= 16; distinct = distinct input bytes resp. distinct (family, budget, depth)')
+        'accepted by the reader at depth >= 16, or a creation date that is before 1970 / within an hour of a transition / '
+        'at an offset different from the epoch\'s / in a fold / at an offset that is not whole hours; process environment = '
+        'the time zone the torrent is read and written in (TZ + tzset in the worker: system zones with DST, pre-1970 rules, '
+        'half-hour / 45-minute / second-granular offsets, negative DST, date-line changes, UTC+14 / UTC-12, and synthetic '
+        'TZif zones written by the harness), dates around every kind of transition, before 1970, at the year-1 / year-9999 '
+        'edges, 32-bit edges, values no calendar holds; histories = a loaded torrent on which exports (infohash, '
+        'infohash_base32, magnet, dump, dump(validate=False), write_stream) are interleaved with edits at every nesting '
+        'depth (in-place on nested lists / dicts / path components / file entries, assignment at the top level of info / of '
+        'the metainfo, replacement by copies, attribute setters), the round-trip clauses judged after every stage; '
+        'non-trivial history stage = a nested in-place edit after a hash export, under the hypothesis; distinct = distinct '
+        'input bytes (per zone) resp. distinct (family, budget, depth) resp. distinct (history, stage)')
 
 MATCHERS = {}
 
@@ -72,13 +84,47 @@ def _attempt(f):
         return {'err': ekind(e)}
 
 
+_ZONES = None
+
+
+def zone_table():
+    """[{label, value, trans}] of the zones of this run (system zones that exist + synthetic TZif files in the scratch dir)"""
+    global _ZONES
+    if _ZONES is None:
+        _ZONES = [{'label': l, 'value': v, 'trans': tzenv.transitions(p)} for l, v, p in tzenv.zones(common.scratch_root())]
+    return _ZONES
+
+
 def _run_chunk(cases):
+    import os
+    import time
+    orig = os.environ.get('TZ')
+    try:
+        return _run_chunk_tz(cases)
+    finally:                                  # workers are reused (and with VERIF_JOBS=1 this is the main process)
+        if orig is None:
+            os.environ.pop('TZ', None)
+        else:
+            os.environ['TZ'] = orig
+        time.tzset()
+
+
+def _run_chunk_tz(cases):
+    import time
     torf = common.import_torf()
     import flatbencode
+    zmap = {z['label']: z['value'] for z in zone_table()}
     out = []
     for c in cases:
         x = bytes.fromhex(c['x'])
         obs = {}
+        if c['op'] == 'lawgrid':
+            z = [z for z in zone_table() if z['label'] == c['tz']][0]
+            tzenv.set_tz(z['value'])
+            out.append(tzenv.law_grid(z['trans']))
+            continue
+        # the process environment of this case: the time zone (TZ + tzset) in which the torrent is read and written
+        tzenv.set_tz(zmap.get(c.get('tz') or 'UTC', 'UTC'))
         if c['op'] == 'parse':
             try:
                 obs['parse'] = {'ok': raw_json(flatbencode.decode(x))}
@@ -101,8 +147,30 @@ def _run_chunk(cases):
                 except (ValueError, OverflowError, OSError):
                     cd = None
         except Exception:  # noqa
-            pass
+            top = None
         obs['cd'] = cd
+        obs['clock'] = None
+        try:
+            if isinstance(top, dict) and isinstance(top.get(b'creation date'), int):
+                i = top[b'creation date']
+                loc, st = tzenv.local_of(i)
+                feat = []
+                if loc is not None and abs(i) < 2 ** 40:
+                    off = time.localtime(i).tm_gmtoff
+                    if off != time.localtime(0).tm_gmtoff:
+                        feat.append('offset-differs-from-epoch')
+                    if i < 0:
+                        feat.append('before-1970')
+                    if loc[1]:
+                        feat.append('fold')
+                    if any(time.localtime(i + dlt).tm_gmtoff != off for dlt in (-3600, 3600)):
+                        feat.append('within-1h-of-transition')
+                    if off % 3600:
+                        feat.append('offset-not-whole-hours')
+                obs['clock'] = {'i': str(i) if abs(i) < 10 ** 30 else None, 'local': loc,
+                                'stamp': None if st is None else str(st), 'feat': feat}
+        except Exception:  # noqa
+            pass
         vok = False
         try:
             t0 = torf.Torrent.read_stream(x, validate=False)
@@ -160,6 +228,14 @@ def gen_cases(ctx, n_docs, small_scope=True):
         md = gen.metainfo(r, opts)
         if r.random() < 0.6:
             wide.widen(r, md)
+        tz = 'UTC'
+        zk = r.random()
+        if kind == 'canonical' and zk < 0.3:
+            z = r.choice(zone_table())
+            md[b'creation date'] = tzenv.dates(r, z['trans'])[0]
+            kind, tz = 'cdate-zone', z['label']
+        elif zk < 0.45:
+            tz = r.choice(zone_table())['label']
         if k >= 0.19 and k < 0.21:
             md[b'info'][b'pieces'] = r.choice([5, [b'x' * 20], {b'a': b'b'}, []])
             kind = 'pieces-not-bytes'
@@ -172,7 +248,8 @@ def gen_cases(ctx, n_docs, small_scope=True):
         x = bstrict.ser(md)
         feats = gen.features(md) | wide.wide_features(md)
         validate = r.random() < 0.8
-        cases.append({'op': 'roundtrip', 'x': x.hex(), 'validate': validate, 'kind': kind, 'feats': sorted(feats)})
+        cases.append({'op': 'roundtrip', 'x': x.hex(), 'validate': validate, 'kind': kind, 'feats': sorted(feats),
+                      'tz': tz})
         cases.append({'op': 'parse', 'x': x.hex(), 'kind': 'parse/canonical'})
         # mutation stream
         if r.random() < 0.5:
@@ -190,6 +267,7 @@ def gen_cases(ctx, n_docs, small_scope=True):
     if not small_scope:
         return cases
     cases.extend(curated_text_cases())
+    cases.extend(zone_date_cases())
     # non-dict top-level values and tiny documents (exhaustive over a small alphabet)
     small = [b'', b'e', b'de', b'le', b'i0e', b'0:', b'd0:0:e', b'd1:ae', b'd4:infodee', b'd4:infoi1ee',
              b'd4:info0:e', b'd4:infod6:pieces0:ee', b'd13:creation datei0e4:infodee',
@@ -233,6 +311,25 @@ def curated_text_cases():
     return out
 
 
+def zone_date_cases():
+    """small scope: in every zone of the run, a minimal torrent dated at the zone's first / last pre-1970 and first
+    post-1970 transition (one second before, at, 3599 s after: gap and fold), on two pre-1970 summer days, a pre-1970
+    winter day, the epoch and a recent date"""
+    out = []
+    for z in zone_table():
+        neg = [t for t in z['trans'] if -2 ** 31 < t < 0]
+        pos = [t for t in z['trans'] if t >= 0]
+        ts = [-14182940, -144590400, -648000, 0, 1513440897]
+        for t in neg[:1] + neg[-2:] + pos[:1] + pos[-1:]:
+            ts += [t - 1, t, t + 3599]
+        for i in dict.fromkeys(ts):
+            md = {b'creation date': i,
+                  b'info': {b'length': 20000, b'name': b'dated', b'piece length': gen.K16, b'pieces': bytes(range(20)) * 2}}
+            out.append({'op': 'roundtrip', 'x': bstrict.ser(md).hex(), 'validate': True, 'kind': 'zone-dates', 'feats': [],
+                        'tz': z['label']})
+    return out
+
+
 def _load_corpus(ctx):
     import glob
     import json
@@ -250,7 +347,7 @@ NONTRIVIAL_FEATS = {'non-utf8-bytes', 'multibyte-key', 'bigint', 'depth>=4', 'em
 
 def _nontrivial(feats):
     return bool(feats & NONTRIVIAL_FEATS) or any(
-        f.startswith(('text:', 'key:')) and f != 'text:non-utf8-bytes' for f in feats)
+        f.startswith(('text:', 'key:', 'date:')) and f != 'text:non-utf8-bytes' for f in feats)
 
 
 def evaluate(ctx, drv, cases):
@@ -261,11 +358,15 @@ def evaluate(ctx, drv, cases):
         if c['op'] == 'parse':
             reqs.append({'op': 'c05.parse', 'x': c['x']})
         else:
+            ck = o.get('clock')
             reqs.append({'op': 'c05.roundtrip', 'x': c['x'], 'validate': c['validate'], 'vok': o['vok'],
-                         'cd': o['cd']})
+                         'cd': o['cd'],
+                         'clock': None if not ck or ck['i'] is None else {k: ck[k] for k in ('i', 'local', 'stamp')}})
     replies = drv.run(reqs)
     for c, o, m in zip(cases, obs_all, replies):
         case = {'op': c['op'], 'x': c['x'], 'validate': c.get('validate'), 'kind': c['kind']}
+        if c.get('tz'):
+            case['tz'] = c['tz']
         if c['op'] == 'parse':
             ctx.case(key=None, nontrivial=False, kind=c['kind'])
             model = {'ok': m['model']} if m['model'] is not None else {'err': 'error'}
@@ -278,7 +379,16 @@ def evaluate(ctx, drv, cases):
             continue
         hyp = bool(m['hyp']) and o['vok'] and c['validate']
         feats = set(c.get('feats', []))
-        ctx.case(key=c['x'][:4000] if hyp else None, nontrivial=hyp and _nontrivial(feats),
+        if o.get('clock'):
+            feats |= {'date:' + f for f in o['clock']['feat']}
+            if m.get('lawful') is not None:
+                ctx.dist['clock-law-at-the-document-date:' + ('holds' if m['lawful'] else 'fails')] += 1
+                # the setter refused (local is None): lawful vacuously, not representable
+                exp = bool(m['lawful']) and o['clock']['local'] is not None
+                if m['flags'].get('canon') and 'dateOk' in m['flags'] and exp != bool(m['flags']['dateOk']):
+                    ctx.machinery_error('Clock.lawfulAt and DateOk disagree (contradicts C05_date_setter_getter_at)', case)
+            ctx.dist['zone-of-dated-torrent:' + (c.get('tz') or 'UTC')] += 1
+        ctx.case(key=(c['x'][:4000], c.get('tz') or 'UTC') if hyp else None, nontrivial=hyp and _nontrivial(feats),
                  kind='roundtrip/' + c['kind'] + ('/hyp' if hyp else ''))
         for f in feats:
             ctx.dist['feature:' + f] += 1
@@ -520,6 +630,273 @@ def evaluate_depth(ctx, drv, fams, cost=None):
     return cost
 
 
+# ---------------------------------------------------------------------------------------------- histories on one object
+# The round-trip clauses in EVERY state an object goes through: a torrent is loaded, exports (infohash, infohash_base32,
+# magnet(), dump(), dump(validate=False), write_stream()) are interleaved with edits of its metainfo at every nesting
+# depth (harness/impl/mdedit.py), and after every stage the clauses are judged on the live object.  Model: the exports
+# are functions of the current metainfo value (Torf.Model.History.exportOf; theorems C05_exports_history_independent,
+# C05_history_roundtrip): the harness reads the live metainfo value at every stage and the driver computes the exports
+# from that value alone.
+H_EXPORTS = ['infohash', 'b32', 'magnet', 'dump', 'dump_nv', 'write_stream']
+
+
+def _htext(r):
+    return unitext.wtext(r, 1, 2) if r.random() < 0.35 else r.choice(['a', 'tag', 'hd', 'x y', 'README', ''])
+
+
+def history_cases(ctx, n):
+    r = ctx.rng
+    cases = []
+    for _ in range(n):
+        md = gen.metainfo(r, {})
+        if r.random() < 0.4:
+            wide.widen(r, md)
+        info = md[b'info']
+        if b'files' not in info and r.random() < 0.6:          # most histories on multi-file torrents (path lists)
+            size = info.pop(b'length')
+            info.pop(b'md5sum', None)
+            a = size // 2
+            info[b'files'] = [{b'length': a, b'path': [b'docs', b'manual.pdf']},
+                              {b'length': size - a, b'path': [b'src', b'main.c'], b'x-attr': [b'x', [b'y']]}]
+        # unknown nested structures to edit in place: in info, at top level, in a file entry
+        info[b'x-tags'] = [b'release', [b'nested', 7, {b'k': [1, 2]}]]
+        if r.random() < 0.7:
+            md[b'x-tree'] = {b'a': [1, [2, [3]]], b'b': {b'c': {b'd': [b'deep']}}}
+        if r.random() < 0.5:
+            info[b'x-map'] = {b'k': {b'l': [b'v']}, b'e': []}
+        tz = 'UTC'
+        if r.random() < 0.4:
+            z = r.choice(zone_table())
+            tz = z['label']
+            if r.random() < 0.6:
+                md[b'creation date'] = tzenv.dates(r, z['trans'])[0]
+        stages = []
+        for si in range(r.randint(3, 7)):
+            ex = [r.choice(H_EXPORTS) for _ in range(r.choice([0, 1, 1, 2, 3, 5]))]
+            if si == 0 and r.random() < 0.5:
+                ex = []                                          # edited before anybody looked at the object
+            edit = None if si == 0 else mdedit.gen_edit(r, _htext)
+            if edit and r.random() < 0.55 and edit['kind'] not in mdedit.NESTED:
+                edit = mdedit.gen_edit(r, _htext)                # bias towards nested in-place edits
+            stages.append({'edit': edit, 'exports': ex})
+        cases.append({'op': 'history', 'x': bstrict.ser(md).hex(), 'tz': tz, 'stages': stages, 'kind': 'history'})
+    return cases
+
+
+def _info_span_sha1(y):
+    v, spans = bstrict.strict_parse(y)
+    s, e = spans[id(v)][b'info']
+    return hashlib.sha1(y[s:e]).hexdigest()
+
+
+def _run_history_chunk(cases):
+    import os
+    import time
+    orig = os.environ.get('TZ')
+    try:
+        return [_run_history(c) for c in cases]
+    finally:
+        if orig is None:
+            os.environ.pop('TZ', None)
+        else:
+            os.environ['TZ'] = orig
+        time.tzset()
+
+
+def _export(torf, t, name):
+    import base64
+    import io
+    try:
+        if name == 'infohash':
+            return {'ok': t.infohash}
+        if name == 'b32':
+            return {'ok': base64.b16encode(base64.b32decode(t.infohash_base32)).decode().lower()}
+        if name == 'magnet':
+            s = str(t.magnet())
+            xt = [p[3:] for p in s.split('?', 1)[1].split('&') if p.startswith('xt=')][0]
+            return {'ok': xt}
+        if name == 'dump':
+            return {'ok': t.dump().hex()}
+        if name == 'dump_nv':
+            return {'ok': t.dump(validate=False).hex()}
+        if name == 'write_stream':
+            b = io.BytesIO()
+            t.write_stream(b)
+            return {'ok': b.getvalue().hex()}
+    except Exception as e:  # noqa
+        return {'err': ekind(e)}
+    raise ValueError(name)
+
+
+def _run_history(c):
+    import flatbencode
+    torf = common.import_torf()
+    zmap = {z['label']: z['value'] for z in zone_table()}
+    tzenv.set_tz(zmap.get(c.get('tz') or 'UTC', 'UTC'))
+    x = bytes.fromhex(c['x'])
+    try:
+        t = torf.Torrent.read_stream(x)
+    except Exception as e:  # noqa
+        return {'setup_failed': ekind(e)}
+    out = {'stages': []}
+    normal = True
+    for st in c['stages']:
+        so = {}
+        if st['edit'] is not None:
+            try:
+                so['applied'] = mdedit.apply_edit(t, st['edit'])
+            except Exception as e:  # noqa      an edit the library refuses is no state change
+                so['applied'] = None
+                so['edit_raised'] = type(e).__name__
+            if so['applied'] is not None and not mdedit.spec_is_normal(st['edit']):
+                normal = False
+        so['normal'] = normal
+        so['md'] = pyval.to_json(t.metainfo)
+        try:
+            t.validate()
+            so['vok'] = True
+        except Exception:  # noqa
+            so['vok'] = False
+        so['outs'] = [[name, _export(torf, t, name)] for name in st['exports']]
+        so['unchanged'] = pyval.to_json(t.metainfo) == so['md']
+        # the round-trip clauses on the live object, now
+        y = _attempt(lambda: t.dump())
+        if 'ok' in y:
+            yb = y['ok']
+            so['y'] = yb.hex()
+            so['hash_now'] = _attempt(lambda: t.infohash)
+            try:
+                so['span_sha1'] = _info_span_sha1(yb)
+            except Exception as e:  # noqa
+                so['span_sha1'] = 'not-canonical:' + type(e).__name__
+            try:
+                t2 = torf.Torrent.read_stream(yb)
+                so['second'] = {'eq': t2 == t, 'dump_same': _attempt(lambda: t2.dump() == yb),
+                                'infohash': _attempt(lambda: t2.infohash)}
+            except Exception as e:  # noqa
+                so['second'] = {'err': ekind(e)}
+            so['clock'] = None
+            try:
+                i = flatbencode.decode(yb).get(b'creation date')
+                if isinstance(i, int) and abs(i) < 10 ** 30:
+                    loc, stp = tzenv.local_of(i)
+                    so['clock'] = {'i': str(i), 'local': loc, 'stamp': None if stp is None else str(stp)}
+            except Exception:  # noqa
+                pass
+        else:
+            so['y'] = None
+            so['y_err'] = y['err']
+        out['stages'].append(so)
+    return out
+
+
+def _history_py(c, upto):
+    """the history as the Python a user would write (for the report)"""
+    lines = ["t = torf.Torrent.read_stream(bytes.fromhex(x))    # TZ=%s" % c.get('tz', 'UTC')]
+    for si, st in enumerate(c['stages'][:upto + 1]):
+        if st['edit'] is not None:
+            e = st['edit']
+            lines.append('# stage %d: mdedit.apply_edit(t, %r)' % (si, {k: e[k] for k in e if k != 'attr'} if e['kind'] != 'attr'
+                                                                     else {'kind': 'attr', 'attr': e['attr']}))
+        for name in st['exports']:
+            lines.append({'infohash': 't.infohash', 'b32': 't.infohash_base32', 'magnet': 'str(t.magnet())', 'dump': 't.dump()',
+                          'dump_nv': 't.dump(validate=False)', 'write_stream': 't.write_stream(io.BytesIO())'}[name])
+        lines.append('y = t.dump(); h = t.infohash; t2 = torf.Torrent.read_stream(y); t2 == t; t2.dump() == y; t2.infohash == h '
+                     '== sha1(info span of y)   # the clauses, judged after every stage%s' % (' <-- fails here' if si == upto else ''))
+    return lines
+
+
+def evaluate_history(ctx, drv, cases):
+    results = [o for ch in common.pmap(_run_history_chunk, common.split(cases, common.NPROC * 4)) for o in ch]
+    reqs, index = [], []
+    for ci, (c, o) in enumerate(zip(cases, results)):
+        if 'setup_failed' in o:
+            ctx.dist['history-setup-failed:' + o['setup_failed']] += 1
+            continue
+        for si, so in enumerate(o['stages']):
+            index.append((ci, si))
+            reqs.append({'op': 'c05.stage', 'md': so['md'], 'vok': so['vok'], 'cd': None, 'clock': so.get('clock')})
+    replies = drv.run(reqs)
+    profile = {}
+    for (ci, si), m in zip(index, replies):
+        c, so = cases[ci], results[ci]['stages'][si]
+        st = c['stages'][si]
+        case = {'op': 'history', 'x': c['x'], 'tz': c['tz'], 'stages': c['stages'][:si + 1], 'stage': si, 'kind': 'history',
+                'py': _history_py(c, si)}
+        applied = so.get('applied')
+        ek = (st['edit'] or {}).get('kind', 'load')
+        nested = ek in mdedit.NESTED and applied is not None
+        before = [n for s2 in c['stages'][:si] for n in s2['exports']]
+        ctx.dist['history-stage/%s' % (ek if applied is not None or st['edit'] is None else ek + ' (nothing to edit)')] += 1
+        hyp = bool(m['hyp']) and so['vok'] and so['y'] is not None
+        # date representable in this zone (clock law at the dumped date)
+        if so.get('clock') and so['clock']['local'] is not None and so['clock']['stamp'] != so['clock']['i']:
+            hyp = False
+        nontrivial = hyp and nested and any(n in ('infohash', 'b32', 'magnet') for n in before)
+        profile.setdefault(ci, []).append((ek, tuple(st['exports'])))
+        ctx.case(key=('history', c['x'][:2000], c['tz'], si), nontrivial=nontrivial,
+                 kind='history/' + ('nested in-place edit after a hash export' if nontrivial else
+                                    'nested in-place edit' if nested else 'top-level edit / attribute / load') + ('/hyp' if hyp else ''))
+        if nontrivial and ctx.dist['sampled-history'] < 2:
+            ctx.dist['sampled-history'] += 1
+            ctx.sample({'case': {k: case[k] for k in ('op', 'tz', 'stage', 'py')}, 'applied': applied,
+                        'outs': [[n, _short(r, 80)] for n, r in so['outs']], 'span_sha1': so.get('span_sha1')}, limit=12)
+        # --- specification
+        bad = None
+        if not so['unchanged']:
+            bad = ('an export changed the metainfo of the object', [n for n, _ in so['outs']])
+        elif hyp:
+            h = so['span_sha1']
+            y = so['y']
+            for name, r in so['outs']:
+                exp = {'ok': y} if name in ('dump', 'dump_nv', 'write_stream') else \
+                    {'ok': 'urn:btih:' + h} if name == 'magnet' else {'ok': h}
+                if r != exp:
+                    bad = ('%s on an edited object does not report the current metainfo (stage %d, after %s)' % (
+                        {'infohash': 't.infohash', 'b32': 't.infohash_base32', 'magnet': 't.magnet()', 'dump': 't.dump()',
+                         'dump_nv': 't.dump(validate=False)', 'write_stream': 't.write_stream()'}[name], si, ek),
+                        {'export': name, 'got': _short(r, 200), 'sha1_of_info_in_dump': h})
+                    break
+            sec = so.get('second') or {}
+            if bad is None:
+                if so['hash_now'] != {'ok': h}:
+                    bad = ('t.infohash != SHA-1 of the info dictionary in t.dump()', [so['hash_now'], h])
+                elif 'err' in sec:
+                    bad = ('read_stream(t.dump()) failed on a validated dump', sec)
+                elif sec['infohash'] != {'ok': h} or sec['infohash'] != so['hash_now']:
+                    bad = ('read_stream(t.dump()).infohash != t.infohash', [sec['infohash'], so['hash_now']])
+                elif sec['dump_same'] != {'ok': True}:
+                    bad = ('read_stream(y).dump() != y for y = t.dump()', sec['dump_same'])
+                elif so['normal'] and not sec['eq']:
+                    bad = ('read_stream(t.dump()) != t', 'only values that read back as themselves were stored')
+        if bad:
+            ctx.violation(bad[0], case, 'every export is a function of the current metainfo; the round-trip clauses hold in '
+                          'every state (C05_exports_history_independent, C05_history_roundtrip)', bad[1],
+                          finding_matchers=MATCHERS)
+            continue
+        # --- the model satisfies the clauses under its hypothesis
+        if hyp:
+            if 'ok' not in m['dump'] or m.get('second') != {'ok': None} or m.get('secondDump') != m['dump'] \
+                    or m.get('secondInfoBytes') != m['infoBytes'] or 'ok' not in m['infoBytes']:
+                ctx.machinery_error('model violates C05_history_roundtrip under its hypothesis', case)
+                continue
+        # --- correspondence: every export against the function of the current value
+        mh = m['infoBytes']
+        if 'ok' in mh:
+            mh = {'ok': hashlib.sha1(bytes.fromhex(mh['ok'])).hexdigest()}
+        for name, r in so['outs']:
+            exp = m['dump'] if name in ('dump', 'write_stream') else m['dumpNV'] if name == 'dump_nv' else \
+                ({'ok': 'urn:btih:' + mh['ok']} if 'ok' in mh else mh) if name == 'magnet' else mh
+            if r != exp:
+                ctx.corr_break('c05.stage/' + name, case, _short(exp, 200), _short(r, 200))
+                break
+        else:
+            my = m['dump']
+            iy = {'ok': so['y']} if so['y'] is not None else {'err': so.get('y_err')}
+            if my != iy:
+                ctx.corr_break('c05.stage/dump', case, _short(my, 200), _short(iy, 200))
+
+
 def _short(x, n=600):
     s = repr(x)
     return s if len(s) <= n else s[:n] + '…'
@@ -544,6 +921,15 @@ def run(ctx, drv):
         'datetime converters, ABCMeta.__instancecheck__, flatbencode.encode and the API entry points are parameters of '
         'the depth model (Torf.Depth.Cost), measured on the code under test at the start of every run; B >= 60 covers '
         'the input-independent frames of the parser, validate() and the setters',
+        'time zones: the worker process sets TZ and calls time.tzset() per case; zones of the run = system zones found under '
+        '/usr/share/zoneinfo plus synthetic TZif (version 1) files in the scratch directory; the clock law '
+        'int(datetime.fromtimestamp(i).timestamp()) == i is an oracle measured with the standard library per document '
+        '(flag lawful / dateOk) and on a grid around every transition of every zone (clock_law_measured); proved is what '
+        'follows from the law (C05_date_setter_getter, C05_dump_read_clock) and the law itself for zones with one offset '
+        'change (C05_date_zone2_lawful)',
+        'histories: the object state that matters is the metainfo value; the harness reads the live value '
+        '(pyval.to_json(t.metainfo)) at every stage and the model computes every export from that value alone; Python\'s '
+        'own list / dict mutation semantics are trusted; stored magnet hashes (Magnet.torrent()) are C06\'s subject',
         'the unicodedata module of the running Python (Unicode %s) is used to generate and label text, never to '
         'compute an expected result' % __import__('unicodedata').unidata_version,
     ]
@@ -559,6 +945,15 @@ def run(ctx, drv):
         first = False
         if ctx.violations:
             break
+    # the law the creation-date round trip relies on, measured in every zone of the run (oracle part of C05_date_*)
+    grids = common.pmap(_run_chunk, [[{'op': 'lawgrid', 'x': '', 'tz': z['label']}] for z in zone_table()])
+    ctx.notes['clock_law_measured'] = {
+        z['label']: {'transitions': len(z['trans']), 'accepted_and_identity': g[0]['accepted_and_identity'],
+                     'refused_by_setter': g[0]['refused_by_setter'],
+                     'accepted_not_identity': g[0]['accepted_not_identity'][:8]}
+        for z, g in zip(zone_table(), grids)}
+    if not ctx.violations:
+        evaluate_history(ctx, drv, history_cases(ctx, ctx.n(500, 8000)))
     t_docs = time.time()
     if not ctx.violations:
         fams = gen_depth_families(ctx, ctx.n(30, 160), ctx.n(4, 24))
@@ -576,6 +971,10 @@ def search(ctx, drv):
         evaluate_depth(ctx, drv, gen_depth_families(ctx, ctx.n(60, 200), ctx.n(8, 24)))
         if ctx.violations:
             return
+    if any(str(b.get('op', '')).startswith('c05.stage') for b in ctx.corr_breaks if isinstance(b, dict)):
+        evaluate_history(ctx, drv, history_cases(ctx, ctx.n(1500, 6000)))
+        if ctx.violations:
+            return
     for _ in range(2):
         evaluate(ctx, drv, gen_cases(ctx, ctx.n(2500, 5000), small_scope=False))
         if ctx.violations:
@@ -584,6 +983,10 @@ def search(ctx, drv):
 
 def replay(ctx, drv, rp):
     c = dict(rp['case'])
+    if c.get('op') == 'history':
+        evaluate_history(ctx, drv, [c])
+        return {'fails': bool(ctx.violations or ctx.corr_breaks), 'violations': ctx.violations,
+                'corr_breaks': ctx.corr_breaks}
     if c.get('op') == 'depth':
         if 'family' not in c:
             return {'fails': False, 'note': 'not a document case'}
